@@ -60,7 +60,7 @@ static struct {
     uint8_t ks[16]; int ksvalid;   /* lazily computed keystream of the current block */
 } W;
 
-static uint8_t inbuf[8192], outbuf[3][8192], expbuf[8192];
+static uint8_t inbuf[66000], outbuf[3][66000], expbuf[66000];
 
 static void add_op(int t, int a, int b) { g_ops[g_nops].type = t; g_ops[g_nops].a = a; g_ops[g_nops].b = b; ++g_nops; }
 static void add_len(int l) { int i; if (l < 0) return; for (i = 0; i < g_nlens; ++i) if (LENS[i] == l) return; LENS[g_nlens++] = l; }
@@ -118,7 +118,7 @@ static void build_alphabet(void)
         }
     }
     add_len(3 * g_maxbatch + B + 1);
-    if (g_mode == MODE_C05) { add_len(1031); add_len(4096 + B + 1); }    /* long single calls: many batch iterations in one request */
+    if (g_mode == MODE_C05) { add_len(1031); add_len(4096 + B + 1); if (thorough) add_len(65536 + B + 1); }    /* long single calls: many batch iterations in one request (thorough: across 2^16 bytes) */
     g_bound1 = 2 * g_maxbatch + B + 1;
     g_bound2 = g_maxbatch + B + 1;
 
